@@ -15,7 +15,11 @@ use tachys::{
     view::{PositionState, RenderHtml},
 };
 #[cfg(feature = "hydrate")]
+#[cfg_attr(leptos_verif, allow(unused_imports))]
 use wasm_bindgen::JsCast;
+#[cfg(leptos_verif)]
+use tachys::renderer::types::Element as HtmlElement;
+#[cfg(not(leptos_verif))]
 use web_sys::HtmlElement;
 
 #[cfg(feature = "hydrate")]
